@@ -1,3 +1,4 @@
+import re
 """Contracts, cases, obligations and their discharge (DESIGN §2.3, §2.7–2.9)."""
 import json, os, subprocess, sys, tempfile, time, traceback, hashlib, z3
 from . import frontend, rx, simp
@@ -124,6 +125,10 @@ def discharge(name, hyps, goal, tier="quick", facts=()):
                 elif r2 in ("sat", "unsat") and res["verdict"] in ("sat", "unsat") and r2 != res["verdict"]:
                     res["verdict"] = "disagree"
         res["smt2_sha"] = hashlib.sha256((text or "").encode()).hexdigest()[:16]
+        if os.environ.get("PYVC_DUMP") and text and res["verdict"] == "unknown":
+            # (debugging aid: the undecided query as SMT-LIB text)
+            with open(os.path.join(os.environ["PYVC_DUMP"], re.sub(r"[^A-Za-z0-9_.-]", "_", name)[:120] + "_" + res["smt2_sha"] + ".smt2"), "w") as fh:
+                fh.write(text)
     if res["verdict"] == "unknown" and z3.is_and(goal):
         # a conjunction the solvers cannot decide as a whole: every conjunct (flattened) is its own query under the same premises; the
         # obligation is discharged iff every conjunct is (a conjunct that is refuted refutes the obligation)
